@@ -110,6 +110,8 @@ M = [
     ("c20_tally_canceled_as_failed", "C20", "jade/jobs/job_submitter.py",
      "            elif result.is_failed():\n                num_failed += 1\n",
      "            elif result.is_failed() or result.is_canceled():\n                num_failed += 1\n", 1200),
+    ("c18_show_status_running_only", "C18", "jade/cli/show_status.py",
+     "                if status != HpcJobStatus.NONE:\n", "                if status == HpcJobStatus.RUNNING:\n", 4000),
 ]
 
 
